@@ -41,7 +41,7 @@ def main():
             return 2
         extra = ""
     else:
-        wt = os.path.join(SRC, "apply")
+        wt = os.environ.get("SEED_APPLY", os.path.join(SRC, "apply"))
         sh("git -C %s checkout -- . && git -C %s clean -fdq" % (wt, wt))
         head = sh("git -C /repo rev-parse HEAD").stdout.strip()
         sh("git -C %s checkout -q --detach %s" % (wt, head))  # the scratch tree follows /repo's HEAD
@@ -51,7 +51,7 @@ def main():
             return 2
         files = sh("git -C %s diff --name-only" % wt).stdout.split()
         ov = {"Replace": {os.path.join("/repo", f): os.path.join(wt, f) for f in files}}
-        ovp = os.path.join(SRC, "overlay_%s_%s.json" % (pid, letter))
+        ovp = os.path.join(SRC, "overlay_%s_%s_%d.json" % (pid, letter, os.getpid()))
         json.dump(ov, open(ovp, "w"))
         extra = " --overlay-extra " + ovp
     try:
